@@ -83,6 +83,17 @@ def interClause (a b out : List Cell) : Bool :=
 def diffClause (a b out : List Cell) : Bool :=
   out.isPerm (a.filter (fun c => !isIn c b)) && sortedCells out
 
+/-- `a | b`: in canonical order; holds every cell of `a` and of `b` and nothing else; when the
+operands are disjoint it is exactly the cells of both (as a multiset) -/
+def unionClause (a b out : List Cell) : Bool :=
+  sortedCells out && a.all (fun c => isIn c out) && b.all (fun c => isIn c out) &&
+  out.all (fun c => isIn c a || isIn c b) &&
+  (b.any (fun c => isIn c a) || out.isPerm (a ++ b))
+
+/-- `a ^ b`: exactly the cells of `a` not in `b` and the cells of `b` not in `a`, in canonical order -/
+def xorClause (a b out : List Cell) : Bool :=
+  out.isPerm (a.filter (fun c => !isIn c b) ++ b.filter (fun c => !isIn c a)) && sortedCells out
+
 /-- `a.isdisjoint(b)`: no cell of `b` is in `a` -/
 def disjClause (a b : List Cell) (impl : Bool) : Bool :=
   impl == !(b.any (fun c => isIn c a))
